@@ -45,8 +45,11 @@ inline void random_value(vrt::Rng &r, DataType dt, int nc, int cls, uint8_t *dst
       case DT_UINT8: { uint8_t v = (uint8_t)r.range(0, 255); memcpy(dst + c, &v, 1); break; }
       case DT_INT16: { int16_t v = (int16_t)r.range(-32768, 32767); memcpy(dst + 2 * c, &v, 2); break; }
       case DT_UINT16: { uint16_t v = (uint16_t)r.range(0, 65535); memcpy(dst + 2 * c, &v, 2); break; }
-      case DT_INT32: { int32_t v = cls == 0 ? r.range(-20, 20) : r.range(-(1 << 20), 1 << 20); memcpy(dst + 4 * c, &v, 4); break; }
-      case DT_UINT32: { uint32_t v = cls == 0 ? (uint32_t)r.range(0, 40) : (uint32_t)r.range(0, 1 << 21); memcpy(dst + 4 * c, &v, 4); break; }
+      // 32-bit classes: 0 small, 1 about 2^20, 2 the whole type, 3 hugging the limits of the type
+      case DT_INT32: { int32_t v = cls == 0 ? r.range(-20, 20) : cls == 1 ? r.range(-(1 << 20), 1 << 20) : cls == 2 ? (int32_t)r.u32() : (r.coin() ? INT32_MAX - r.range(0, 50) : INT32_MIN + r.range(0, 50));
+                       memcpy(dst + 4 * c, &v, 4); break; }
+      case DT_UINT32: { uint32_t v = cls == 0 ? (uint32_t)r.range(0, 40) : cls == 1 ? (uint32_t)r.range(0, 1 << 21) : cls == 2 ? r.u32() : (r.coin() ? UINT32_MAX - (uint32_t)r.range(0, 50) : (uint32_t)r.range(0, 50));
+                        memcpy(dst + 4 * c, &v, 4); break; }
       default: {
         float v;
         switch (cls) {
